@@ -91,28 +91,32 @@ pub struct SpaceResult {
     pub wall_s: f64,
 }
 
+/// evaluate one index; a panic raised by the LIBRARY on a case of the property's domain means the promised result was
+/// not delivered and is reported as a violation of this property (C01 reports it as well, with attribution); a panic
+/// raised by the harness itself (generator / reference-domain assertion / bug) is a machinery failure, never a verdict
+pub fn eval_caught(sp: &dyn Space, idx: u64) -> Eval {
+    match std::panic::catch_unwind(std::panic::AssertUnwindSafe(|| sp.eval(idx))) {
+        Ok(e) => e,
+        Err(p) => {
+            let msg = p.downcast_ref::<String>().cloned().or_else(|| p.downcast_ref::<&str>().map(|s| s.to_string())).unwrap_or_else(|| "panic".into());
+            let loc = LAST_PANIC_LOC.with(|l| l.borrow().clone());
+            if loc.starts_with("src/") || loc.is_empty() {
+                eprintln!("MACHINERY: {}[{}] panicked inside the harness at {}: {}", sp.name(), idx, loc, msg);
+                std::process::exit(2);
+            }
+            let short: String = msg.chars().map(|c| if c.is_ascii_digit() { '#' } else { c }).take(80).collect();
+            Eval { key: 0, transitions: 0, issues: vec![issue(format!("library-panicked/{}", short.replace(' ', "-")), format!("panic at {} while evaluating this case: {}", loc, msg))], tags: vec![] }
+        }
+    }
+}
+
 pub fn run_space(sp: &dyn Space) -> SpaceResult {
     let t0 = Instant::now();
     let n = sp.size();
     let l = (0..n)
         .into_par_iter()
         .fold(Local::default, |mut acc, idx| {
-            // a panic of the library on a case of the property's domain means the promised result was not
-            // delivered: it is reported as a violation of this property (C01 reports it as well, with attribution)
-            let e = match std::panic::catch_unwind(std::panic::AssertUnwindSafe(|| sp.eval(idx))) {
-                Ok(e) => e,
-                Err(p) => {
-                    let msg = p.downcast_ref::<String>().cloned().or_else(|| p.downcast_ref::<&str>().map(|s| s.to_string())).unwrap_or_else(|| "panic".into());
-                    let loc = LAST_PANIC_LOC.with(|l| l.borrow().clone());
-                    if loc.starts_with("src/") || loc.is_empty() {
-                        // raised by the harness itself (generator / reference-domain assertion / bug): never a verdict
-                        eprintln!("MACHINERY: {}[{}] panicked inside the harness at {}: {}", sp.name(), idx, loc, msg);
-                        std::process::exit(2);
-                    }
-                    let short: String = msg.chars().map(|c| if c.is_ascii_digit() { '#' } else { c }).take(80).collect();
-                    Eval { key: 0, transitions: 0, issues: vec![issue(format!("library-panicked/{}", short.replace(' ', "-")), format!("panic at {} while evaluating this case: {}", loc, msg))], tags: vec![] }
-                }
-            };
+            let e = eval_caught(sp, idx);
             acc.evaluations += 1;
             acc.transitions += e.transitions;
             if e.key != 0 {
@@ -258,7 +262,7 @@ pub fn finish(rep: Report, spaces: &[Box<dyn Space>], results: Vec<SpaceResult>,
             println!("  ... {} further violation signatures not printed (all are in the evidence file)", violations.len() - k);
             break;
         }
-        let again = spaces[*si].eval(*idx);
+        let again = eval_caught(spaces[*si].as_ref(), *idx);
         if !again.issues.iter().any(|i| &i.sig == sig) {
             eprintln!("MACHINERY: violation {} at {}[{}] did not reproduce on re-execution", sig, results[*si].name, idx);
             machinery_fail = true;
